@@ -24,6 +24,7 @@ func init() {
 		step := fs.Int("sweep", 64, "bit sweep: 1 = every bit, n = every n-th bit on average, 0 = off")
 		extcfgs := fs.String("extcfgs", "", "comma separated kind/encoding for which only the extension matrix is run")
 		seed := fs.Int64("seed", 1, "seed")
+		full := fs.Int("full", 1000, "the first N configurations replay every behaviour; the others share them (each behaviour on one of them)")
 		_ = fs.Parse(args)
 		data, err := os.ReadFile(*in)
 		if err != nil {
@@ -42,7 +43,8 @@ func init() {
 			Replayed int                  `json:"replayed"`
 		}
 		var o outT
-		for _, c := range strings.Split(*cfgs, ",") {
+		cfgList := strings.Split(*cfgs, ",")
+		for ci, c := range cfgList {
 			var kind string
 			var enc int
 			parts := strings.Split(c, "/")
@@ -53,8 +55,21 @@ func init() {
 				fmt.Fprintln(os.Stderr, "env", c, err)
 				return 2
 			}
-			rs := env.Replay(bs, runtime.NumCPU())
+			mine, orig := bs, []int(nil)
+			if ci >= *full && len(cfgList) > *full {
+				mine = nil
+				for i := range bs {
+					if i%(len(cfgList)-*full) == ci-*full {
+						mine = append(mine, bs[i])
+						orig = append(orig, i)
+					}
+				}
+			}
+			rs := env.Replay(mine, runtime.NumCPU())
 			for _, r := range rs {
+				if orig != nil {
+					r.Idx = orig[r.Idx]
+				}
 				if r.Skipped == "" {
 					o.Replayed++
 				}
